@@ -4,6 +4,8 @@
 extern crate version_check as rustc;
 
 fn main() {
+    // Verification hook guard (see /verif): declared so that `#[cfg(a4lg_ffuzzy_verif)]` is a known cfg name.
+    println!("cargo:rustc-check-cfg=cfg(a4lg_ffuzzy_verif)");
     // Avoid unnecessary rebuilding.
     println!("cargo:rerun-if-changed=build.rs");
 
